@@ -307,3 +307,7 @@ func (p *Program) ConcurrentRoots() []*ssa.Function {
 	sort.Slice(out, func(i, j int) bool { return FuncKey(out[i]) < FuncKey(out[j]) })
 	return out
 }
+
+// MutexOp exposes the classification of a call as a mutex operation:
+// (canonical mutex rendering, "lock"|"rlock"|"unlock"|"runlock") or ("","").
+func MutexOp(c *ssa.CallCommon) (mutex string, op string) { return mutexOp(c) }
